@@ -634,7 +634,11 @@ class _AH:
         if q == 'numpy.diff':
             return Opaque('diff')
         if q == 'numpy.cumsum':
-            return args[0]
+            # noise-free evaluation: the accumulated draws are zero; anything else is not modelled
+            v = args[0]
+            zero = (isinstance(v, Rat) and A.is_zero(v)) or (
+                isinstance(v, SArray) and all(A.is_zero(v.get(i)) for i in v.indices()))
+            return v if zero else Opaque('cumsum')
         if q == 'pandas.DataFrame':
             if 'data' in kwargs or args:
                 self.frame = kwargs.get('data', args[0] if args else None)
